@@ -15,23 +15,82 @@ import ast
 import copy
 
 from .known_names import KNOWN
+from .loader import clone
 
 MAX_STMTS = 40
 MAX_ROUNDS = 3
 
 
-def _single_exit(fn):
-    """The helper returns only in its last top-level statement (or not at all) and does not yield."""
+def _single_exit(fn, multi_ok=False):
+    """The helper returns only in its last top-level statement (or not at all) and does not yield.
+    multi_ok: early returns are acceptable when _tailify can restructure them."""
     body = fn.body
     for i, s in enumerate(body):
         for n in ast.walk(s):
             if isinstance(n, (ast.Yield, ast.YieldFrom, ast.Nonlocal)):
                 return False
             if isinstance(n, ast.Return) and not (i == len(body) - 1 and n is s):
+                if multi_ok:
+                    continue
                 return False
             if isinstance(n, (ast.FunctionDef, ast.AsyncFunctionDef, ast.ClassDef)) and n is not fn:
                 return False
     return True
+
+
+def _terminates(stmts):
+    """every path through the statement list ends in return / raise"""
+    if not stmts:
+        return False
+    s = stmts[-1]
+    if isinstance(s, (ast.Return, ast.Raise)):
+        return True
+    if isinstance(s, ast.If):
+        return _terminates(s.body) and _terminates(s.orelse)
+    return False
+
+
+def _tailify(stmts):
+    """Equivalent statement list in which `return` occurs in tail position only (early returns become if/else
+    nesting); None if a return sits inside a loop / try / with."""
+    out = []
+    for i, s in enumerate(stmts):
+        rest = stmts[i + 1:]
+        if isinstance(s, ast.Return):
+            return out + [s]           # anything after it is dead
+        if isinstance(s, ast.If):
+            has_ret = any(isinstance(x, ast.Return) for b in (s.body, s.orelse) for st in b for x in ast.walk(st))
+            if not has_ret:
+                out.append(s)
+                continue
+            tb, te = _terminates(s.body), _terminates(s.orelse)
+            body = _tailify(list(s.body) + ([] if tb else rest))
+            orelse = _tailify(list(s.orelse) + ([] if te else rest))
+            if body is None or orelse is None:
+                return None
+            n = ast.If(test=s.test, body=body or [ast.Pass()], orelse=orelse)
+            return out + [ast.copy_location(n, s)]
+        if any(isinstance(x, ast.Return) for x in ast.walk(s)):
+            return None
+        out.append(s)
+    return out
+
+
+def _map_tail_returns(stmts, fn):
+    """replace every tail-position `return e` by fn(e) (a list of statements)"""
+    if not stmts:
+        return stmts
+    s = stmts[-1]
+    if isinstance(s, ast.Return):
+        return stmts[:-1] + fn(s)
+    if isinstance(s, ast.If):
+        n = ast.If(test=s.test, body=_map_tail_returns(list(s.body), fn) or [ast.Pass()], orelse=_map_tail_returns(list(s.orelse), fn))
+        return stmts[:-1] + [ast.copy_location(n, s)]
+    return stmts
+
+
+def _has_return(stmts):
+    return any(isinstance(x, ast.Return) for s in stmts for x in ast.walk(s))
 
 
 def _count(fn):
@@ -44,27 +103,59 @@ class _Subst(ast.NodeTransformer):
 
     def visit_Name(self, n):
         if isinstance(n.ctx, ast.Load) and n.id in self.mapping:
-            return copy.deepcopy(self.mapping[n.id])
+            return clone(self.mapping[n.id])
         return n
 
     def visit_Lambda(self, n):
         shadow = {a.arg for a in n.args.args}
         inner = {k: v for k, v in self.mapping.items() if k not in shadow}
         n2 = copy.copy(n)
-        n2.body = _Subst(inner).visit(copy.deepcopy(n.body))
+        n2.body = _Subst(inner).visit(clone(n.body))
         return n2
 
 
+OPERATOR_BIN = {"add": ast.Add, "sub": ast.Sub, "mul": ast.Mult, "truediv": ast.Div, "floordiv": ast.FloorDiv, "mod": ast.Mod,
+                "pow": ast.Pow, "lshift": ast.LShift, "rshift": ast.RShift, "and_": ast.BitAnd, "or_": ast.BitOr, "xor": ast.BitXor}
+OPERATOR_CMP = {"lt": ast.Lt, "le": ast.LtE, "eq": ast.Eq, "ne": ast.NotEq, "ge": ast.GtE, "gt": ast.Gt, "is_": ast.Is, "is_not": ast.IsNot}
+OPERATOR_UN = {"neg": ast.USub, "pos": ast.UAdd, "invert": ast.Invert, "inv": ast.Invert, "not_": ast.Not}
+
+
+def operator_function(module, f):
+    """name of the stdlib `operator` function an expression denotes in this module (operator.ge, or a name imported from it)"""
+    if module is None:
+        return None
+    if isinstance(f, ast.Attribute) and isinstance(f.value, ast.Name):
+        b = module.bindings.get(f.value.id)
+        if b and b[0] == "module" and b[1] in ("operator", "_operator"):
+            return f.attr
+    if isinstance(f, ast.Name):
+        b = module.bindings.get(f.id)
+        if b and b[0] == "attr" and b[1] in ("operator", "_operator"):
+            return b[2]
+    return None
+
+
 class _Beta(ast.NodeTransformer):
-    """(lambda a, b: E)(x, y)  ->  E[a:=x, b:=y]"""
+    """(lambda a, b: E)(x, y)  ->  E[a:=x, b:=y];   operator.ge(x, y) -> x >= y"""
+
+    def __init__(self, module=None):
+        self.module = module
 
     def visit_Call(self, n):
         self.generic_visit(n)
         f = n.func
+        opn = operator_function(self.module, f)
+        if opn is not None and not n.keywords and not any(isinstance(a, ast.Starred) for a in n.args):
+            if opn in OPERATOR_BIN and len(n.args) == 2:
+                return ast.copy_location(ast.BinOp(left=n.args[0], op=OPERATOR_BIN[opn](), right=n.args[1]), n)
+            if opn in OPERATOR_CMP and len(n.args) == 2:
+                return ast.copy_location(ast.Compare(left=n.args[0], ops=[OPERATOR_CMP[opn]()], comparators=[n.args[1]]), n)
+            if opn in OPERATOR_UN and len(n.args) == 1:
+                return ast.copy_location(ast.UnaryOp(op=OPERATOR_UN[opn](), operand=n.args[0]), n)
         if isinstance(f, ast.Lambda) and not n.keywords and not f.args.vararg and not f.args.kwarg \
                 and len(f.args.args) == len(n.args) and not any(isinstance(a, ast.Starred) for a in n.args):
             mapping = {p.arg: a for p, a in zip(f.args.args, n.args)}
-            return ast.copy_location(_Subst(mapping).visit(copy.deepcopy(f.body)), n)
+            return ast.copy_location(_Subst(mapping).visit(clone(f.body)), n)
         return n
 
 
@@ -85,15 +176,65 @@ def _assigned_names(fn):
             tg = n.targets if isinstance(n, ast.Assign) else [n.target]
             for t in tg:
                 for x in ast.walk(t):
-                    if isinstance(x, ast.Name):
+                    if isinstance(x, ast.Name) and not isinstance(getattr(x, "ctx", None), ast.Load):
                         out.add(x.id)
     return out
+
+
+def _split_tuple_assign(a):
+    """(x, y) = (e1, e2)  ->  x = e1; y = e2   when no target name occurs in a value"""
+    if len(a.targets) == 1 and isinstance(a.targets[0], (ast.Tuple, ast.List)) and isinstance(a.value, (ast.Tuple, ast.List)) \
+            and len(a.targets[0].elts) == len(a.value.elts) and all(isinstance(t, ast.Name) for t in a.targets[0].elts):
+        tn = {t.id for t in a.targets[0].elts}
+        used = {x.id for v in a.value.elts for x in ast.walk(v) if isinstance(x, ast.Name)}
+        if not (tn & used):
+            return [ast.copy_location(ast.Assign(targets=[ast.Name(id=t.id, ctx=ast.Store())], value=v), a)
+                    for t, v in zip(a.targets[0].elts, a.value.elts)]
+    return [a]
+
+
+def callee_short(call):
+    f = call.func
+    return f.id if isinstance(f, ast.Name) else (f.attr if isinstance(f, ast.Attribute) else "call")
+
+
+class _AttrCanon(ast.NodeTransformer):
+    """getattr(o, "name") -> o.name ;  statement setattr(o, "name", v) -> o.name = v   (constant identifier names only)"""
+
+    def visit_Call(self, n):
+        self.generic_visit(n)
+        if isinstance(n.func, ast.Name) and n.func.id == "getattr" and len(n.args) == 2 and not n.keywords \
+                and isinstance(n.args[1], ast.Constant) and isinstance(n.args[1].value, str) and n.args[1].value.isidentifier():
+            return ast.copy_location(ast.Attribute(value=n.args[0], attr=n.args[1].value, ctx=ast.Load()), n)
+        return n
+
+    def visit_Expr(self, n):
+        self.generic_visit(n)
+        c = n.value
+        if isinstance(c, ast.Call) and isinstance(c.func, ast.Name) and c.func.id == "setattr" and len(c.args) == 3 and not c.keywords \
+                and isinstance(c.args[1], ast.Constant) and isinstance(c.args[1].value, str) and c.args[1].value.isidentifier():
+            t = ast.Attribute(value=c.args[0], attr=c.args[1].value, ctx=ast.Store())
+            return ast.copy_location(ast.Assign(targets=[t], value=c.args[2]), n)
+        return n
+
+
+class _Rename(ast.NodeTransformer):
+    def __init__(self, mapping):
+        self.mapping = mapping
+
+    def visit_Name(self, n):
+        if n.id in self.mapping:
+            return ast.copy_location(ast.Name(id=self.mapping[n.id], ctx=n.ctx), n)
+        return n
 
 
 class Flattener:
     def __init__(self, repo):
         self.repo = repo
         self.n_inlined = 0
+        self.inlined_names = set()
+        self.inlined_classes = set()
+        self._names = {}
         self.log = []
 
     # ---------------------------------------------------------------- resolution of a call to an inlinable helper
@@ -142,7 +283,9 @@ class Flattener:
             return None
         if any(isinstance(a, ast.Starred) for a in call.args) or any(k.arg is None for k in call.keywords):
             return None
-        if _count(fn) > MAX_STMTS or not _single_exit(fn):
+        if _count(fn) > MAX_STMTS or not _single_exit(fn, multi_ok=True):
+            return None
+        if not _single_exit(fn) and _tailify([s for s in fn.body]) is None:
             return None
         # recursion guard
         for n in ast.walk(fn):
@@ -182,9 +325,9 @@ class Flattener:
             if _simple(a) and p not in assigned:
                 mapping[p] = a
             else:
-                asg = ast.Assign(targets=[ast.Name(id=p, ctx=ast.Store())], value=copy.deepcopy(a))
+                asg = ast.Assign(targets=[ast.Name(id=p, ctx=ast.Store())], value=clone(a))
                 pre.append(ast.copy_location(asg, call))
-        body = [copy.deepcopy(s) for s in fn.body]
+        body = [clone(s) for s in fn.body]
         if body and isinstance(body[0], ast.Expr) and isinstance(body[0].value, ast.Constant) and isinstance(body[0].value.value, str):
             body = body[1:]
         body = [s for s in body if not isinstance(s, ast.Global)]
@@ -192,6 +335,40 @@ class Flattener:
         body = [sub.visit(s) for s in body]
         out = list(pre)
         ret = None
+        multi = any(isinstance(x, ast.Return) for s in body[:-1] for x in ast.walk(s)) or (
+            body and not isinstance(body[-1], ast.Return) and _has_return(body[-1:]))
+        if multi and mode == "return":
+            # every return of the helper is a return of the caller
+            out += body
+            if not _terminates(body):
+                out.append(ast.copy_location(ast.Return(value=ast.Constant(value=None)), call))
+            out = self._finish(fi, fn, out, target if mode == "assign" else None)
+            for s in out:
+                ast.fix_missing_locations(s)
+            self.n_inlined += 1
+            self.inlined_names.add(fn.name)
+            self.log.append("%s: inlined %s (multi-exit) at line %s" % (fi.fq, fn.name, getattr(call, "lineno", "?")))
+            return out
+        if multi:
+            tb = _tailify(body)
+            if tb is None:
+                return None
+
+            def repl(r):
+                val = r.value if r.value is not None else ast.Constant(value=None)
+                if mode == "assign":
+                    return _split_tuple_assign(ast.copy_location(ast.Assign(targets=[clone(t) for t in target], value=val), r))
+                if any(isinstance(x, ast.Call) for x in ast.walk(val)):
+                    return [ast.copy_location(ast.Expr(value=val), r)]
+                return [ast.copy_location(ast.Pass(), r)]
+            out += _map_tail_returns(tb, repl)
+            out = self._finish(fi, fn, out, target if mode == "assign" else None)
+            for s in out:
+                ast.fix_missing_locations(s)
+            self.n_inlined += 1
+            self.inlined_names.add(fn.name)
+            self.log.append("%s: inlined %s (multi-exit, restructured) at line %s" % (fi.fq, fn.name, getattr(call, "lineno", "?")))
+            return out
         if body and isinstance(body[-1], ast.Return):
             ret = body[-1].value
             body = body[:-1]
@@ -200,19 +377,158 @@ class Flattener:
             val = ret if ret is not None else ast.Constant(value=None)
             trivial = len(target) == 1 and isinstance(target[0], ast.Name) and isinstance(val, ast.Name) and val.id == target[0].id
             if not trivial:
-                a = ast.Assign(targets=[copy.deepcopy(t) for t in target], value=val)
-                out.append(ast.copy_location(a, call))
+                a = ast.Assign(targets=[clone(t) for t in target], value=val)
+                out.extend(_split_tuple_assign(ast.copy_location(a, call)))
         elif mode == "return":
             r = ast.Return(value=ret)
             out.append(ast.copy_location(r, call))
         elif mode == "expr" and ret is not None and any(isinstance(x, ast.Call) for x in ast.walk(ret)):
             e = ast.Expr(value=ret)
             out.append(ast.copy_location(e, call))
-        out = [_Beta().visit(s) for s in out]
+        out = self._finish(fi, fn, out, target if mode == "assign" else None)
         for s in out:
             ast.fix_missing_locations(s)
         self.n_inlined += 1
+        self.inlined_names.add(fn.name)
         self.log.append("%s: inlined %s at line %s" % (fi.fq, fn.name, getattr(call, "lineno", "?")))
+        return out
+
+    # ---------------------------------------------------------------- `with Helper(args): body`
+    def expand_with(self, fi, w):
+        """Desugar `with C(args): body` for an *unknown* repo class C that is a plain context manager (fields set in
+        __init__, __enter__/__exit__ straight-line, __exit__ not swallowing exceptions) into
+
+            <fields as locals>; <__enter__ body>; try: body  finally: <__exit__ body>
+
+        (scalar replacement of the non-escaping manager object)."""
+        if len(w.items) != 1 or not isinstance(w.items[0].context_expr, ast.Call):
+            return None
+        call = w.items[0].context_expr
+        if not isinstance(call.func, ast.Name) or call.func.id in KNOWN or call.keywords or any(isinstance(a, ast.Starred) for a in call.args):
+            return None
+        b = fi.module.bindings.get(call.func.id)
+        if not b or b[0] != "class":
+            return None
+        ci = b[1]
+        if ci.base_names and ci.base_names != ["object"]:
+            return None
+        en, ex, init = ci.methods.get("__enter__"), ci.methods.get("__exit__"), ci.methods.get("__init__")
+        if en is None or ex is None:
+            return None
+        var = w.items[0].optional_vars
+        prefix = "_%s_%d_" % (ci.name.strip("_"), getattr(w, "lineno", 0))
+        fields = {}
+
+        class _Self(ast.NodeTransformer):
+            def __init__(self, selfname):
+                self.selfname = selfname
+                self.escapes = False
+
+            def visit_Attribute(self, n):
+                if isinstance(n.value, ast.Name) and n.value.id == self.selfname:
+                    nm = fields.setdefault(n.attr, prefix + n.attr)
+                    return ast.copy_location(ast.Name(id=nm, ctx=n.ctx), n)
+                self.generic_visit(n)
+                return n
+
+            def visit_Name(self, n):
+                if n.id == self.selfname:
+                    self.escapes = True
+                return n
+
+        def method_body(mi, args, allow_return_self):
+            fn = mi.node
+            if fn.args.vararg or fn.args.kwarg or fn.args.kwonlyargs or fn.decorator_list or not _single_exit(fn) or _count(fn) > MAX_STMTS:
+                return None
+            params = [a.arg for a in fn.args.args]
+            if not params:
+                return None
+            mapping = {}
+            pre = []
+            for p_, a in zip(params[1:], args):
+                if a is None:
+                    continue
+                if _simple(a):
+                    mapping[p_] = a
+                else:
+                    pre.append(ast.copy_location(ast.Assign(targets=[ast.Name(id=p_, ctx=ast.Store())], value=clone(a)), w))
+            body = [clone(s) for s in fn.body]
+            if body and isinstance(body[0], ast.Expr) and isinstance(body[0].value, ast.Constant) and isinstance(body[0].value.value, str):
+                body = body[1:]
+            ret = None
+            if body and isinstance(body[-1], ast.Return):
+                ret = body[-1].value
+                body = body[:-1]
+            tr = _Self(params[0])
+            body = [tr.visit(_Subst(mapping).visit(s)) for s in body]
+            if tr.escapes:
+                return None
+            return pre + body, ret, params[0]
+        out = []
+        if init is not None:
+            if len(init.node.args.args) - 1 != len(call.args):
+                return None
+            r = method_body(init, list(call.args), False)
+            if r is None or r[1] is not None:
+                return None
+            out += r[0]
+        elif call.args:
+            return None
+        r = method_body(en, [], True)
+        if r is None:
+            return None
+        body_en, ret_en, selfname = r
+        if var is not None:
+            if ret_en is None or (isinstance(ret_en, ast.Name) and ret_en.id == selfname):
+                if any(isinstance(x, ast.Name) and isinstance(var, ast.Name) and x.id == var.id for s in w.body for x in ast.walk(s)):
+                    return None
+            else:
+                tr = _Self(selfname)
+                val = tr.visit(clone(ret_en))
+                if tr.escapes:
+                    return None
+                body_en = body_en + [ast.copy_location(ast.Assign(targets=[clone(var)], value=val), w)]
+        elif ret_en is not None and not (isinstance(ret_en, (ast.Name, ast.Constant))):
+            return None
+        out += body_en
+        r = method_body(ex, [None, None, None], False)
+        if r is None:
+            return None
+        body_ex, ret_ex, _s = r
+        if ret_ex is not None and not (isinstance(ret_ex, ast.Constant) and not ret_ex.value):
+            return None          # may swallow exceptions: not a plain try/finally
+        t = ast.Try(body=list(w.body), handlers=[], orelse=[], finalbody=body_ex or [ast.Pass()])
+        out.append(ast.copy_location(t, w))
+        for s in out:
+            ast.fix_missing_locations(s)
+        self.n_inlined += 1
+        self.inlined_classes.add(ci.name)
+        self.log.append("%s: desugared `with %s(...)` at line %s" % (fi.fq, ci.name, getattr(w, "lineno", "?")))
+        return out
+
+    def _finish(self, fi, fn, out, target):
+        """beta/operator reduction, constant getattr/setattr canonicalisation, and renaming of helper locals that collide
+        with names already used in the caller (a helper inlined twice must not share its locals)."""
+        out = [_AttrCanon().visit(_Beta(fi.module).visit(s)) for s in out]
+        names = self._names.setdefault(id(fi.node), None)
+        if names is None:
+            names = set(_assigned_names(fi.node)) | {a.arg for a in fi.node.args.args}
+            self._names[id(fi.node)] = names
+        keep = set()
+        for t in target or []:
+            keep |= {x.id for x in ast.walk(t) if isinstance(x, ast.Name)}
+        globs = {g for n in ast.walk(fn) if isinstance(n, ast.Global) for g in n.names}
+        local = set(_assigned_names(ast.Module(body=list(out), type_ignores=[]))) - keep - globs
+        ren = {}
+        for n in sorted(local):
+            if n in names:
+                k = 2
+                while "%s__%d" % (n, k) in names:
+                    k += 1
+                ren[n] = "%s__%d" % (n, k)
+        if ren:
+            out = [_Rename(ren).visit(s) for s in out]
+        names |= {ren.get(n, n) for n in local}
         return out
 
     def flat_block(self, fi, stmts):
@@ -226,6 +542,22 @@ class Flattener:
                 rep = self.expand_call(fi, s.value, "assign", s.targets)
             elif isinstance(s, ast.Return) and isinstance(s.value, ast.Call):
                 rep = self.expand_call(fi, s.value, "return")
+            elif isinstance(s, ast.With):
+                rep = self.expand_with(fi, s)
+            elif isinstance(s, ast.If):
+                # `if helper(args):` / `if not helper(args):`  ->  t = helper(args) [inlined]; if t:
+                tcall = s.test.operand if (isinstance(s.test, ast.UnaryOp) and isinstance(s.test.op, ast.Not)) else s.test
+                if isinstance(tcall, ast.Call) and self.helper_of(fi, tcall) is not None:
+                    tmp = "_%s_%d" % (callee_short(tcall).strip("_"), getattr(s, "lineno", 0))
+                    pre = self.expand_call(fi, tcall, "assign", [ast.Name(id=tmp, ctx=ast.Store())])
+                    if pre is not None:
+                        nt = ast.Name(id=tmp, ctx=ast.Load())
+                        if tcall is not s.test:
+                            nt = ast.UnaryOp(op=ast.Not(), operand=nt)
+                        s.test = ast.copy_location(nt, s.test)
+                        ast.fix_missing_locations(s)
+                        out.extend(pre)
+                        changed = True
             if rep is not None:
                 out.extend(rep)
                 changed = True
@@ -274,10 +606,53 @@ def flatten_repo(repo):
                 try:
                     if fl.flatten_function(fi):
                         touched.append(fi.fq)
-                except Exception:
+                except Exception as e:
+                    import traceback
+                    fl.log.append("flatten failed for %s: %r %s" % (fi.fq, e, traceback.format_exc().splitlines()[-3:]))
                     continue
+    _drop_dead_helpers(repo, fl)
     repo.flatten_log = fl.log
     return fl
+
+
+def _drop_dead_helpers(repo, fl):
+    """A private helper (or helper context-manager class) every use of which was inlined is no longer part of the
+    analysed program: it is removed from the function tables (its body lives on at the call sites)."""
+    if not fl.inlined_names and not fl.inlined_classes:
+        return
+    refs = {}
+    for m in repo.modules.values():
+        for n in ast.walk(m.tree):
+            if isinstance(n, ast.Name) and isinstance(n.ctx, ast.Load):
+                refs[n.id] = refs.get(n.id, 0) + 1
+            elif isinstance(n, ast.Attribute):
+                refs[n.attr] = refs.get(n.attr, 0) + 1
+            elif isinstance(n, ast.Constant) and isinstance(n.value, str) and n.value.isidentifier():
+                refs[n.value] = refs.get(n.value, 0) + 1
+    dropped = []
+    for m in repo.modules.values():
+        for q, fi in list(m.functions.items()):
+            nm = fi.name
+            if nm in fl.inlined_names and nm.startswith("_") and not nm.endswith("__") and nm not in KNOWN and refs.get(nm, 0) == 0:
+                del m.functions[q]
+                if fi.cls is not None:
+                    fi.cls.methods.pop(nm, None)
+                elif fi.parent is not None:
+                    fi.parent.children.pop(nm, None)
+                else:
+                    m.bindings.pop(nm, None)
+                for q2 in [k for k in m.functions if k.startswith(q + ".")]:
+                    del m.functions[q2]
+                dropped.append(fi.fq)
+        for cn, ci in list(m.classes.items()):
+            if cn in fl.inlined_classes and cn not in KNOWN and refs.get(cn, 0) == 0:
+                for q in [k for k in m.functions if k.startswith(cn + ".")]:
+                    del m.functions[q]
+                del m.classes[cn]
+                m.bindings.pop(cn, None)
+                dropped.append(ci.fq)
+    for d in dropped:
+        fl.log.append("dropped after inlining: %s" % d)
 
 
 def resolve_locals(fnode, expr, max_depth=4):
@@ -297,7 +672,7 @@ def resolve_locals(fnode, expr, max_depth=4):
                     if isinstance(x, ast.Name):
                         counts[x.id] = counts.get(x.id, 0) + 2
     single = {k: v for k, v in defs.items() if counts.get(k) == 1 and k not in params}
-    e = copy.deepcopy(expr)
+    e = clone(expr)
     for _ in range(max_depth):
         names = {x.id for x in ast.walk(e) if isinstance(x, ast.Name) and isinstance(x.ctx, ast.Load)}
         todo = {k: single[k] for k in names if k in single}
